@@ -245,7 +245,11 @@ class Section(Entity):
     @link.setter
     def link(self, id_or_sec):
         if id_or_sec is None:
-            self._h5group.delete("link")
+            if "link" in self._h5group:
+                self._h5group.delete("link")
+            if self.file.auto_update_timestamps:
+                self.force_updated_at()
+            return
         if isinstance(id_or_sec, Section):
             sec = id_or_sec
         else:
